@@ -449,3 +449,34 @@ type KxPrimeAsc struct {
 	Bee string `plenc:"3"`
 	New int    `plenc:"9"`
 }
+
+// ---- shapes added after the second seeded-change campaign
+
+// field indexes at the edges where lookup-table tricks change behaviour
+type TIdxEdges struct {
+	A bool `plenc:"63"`
+	B bool `plenc:"64"`
+	C bool `plenc:"65"`
+	D bool `plenc:"999"`
+	E bool `plenc:"1000"`
+	F bool `plenc:"1001"`
+	G bool `plenc:"1024"`
+}
+
+// pointers to packed slices
+type TPtrs3 struct {
+	A *[]int   `plenc:"1"`
+	B *[]bool  `plenc:"2"`
+	C *float32 `plenc:"3"`
+}
+
+// a derived type used under different options inside one struct, maps included
+type TProtoMix3 struct {
+	A []string            `plenc:"1,proto"`
+	M map[string][]string `plenc:"2"`
+}
+
+type TProtoMix4 struct {
+	M map[string]int `plenc:"1"`
+	P map[string]int `plenc:"2,proto"`
+}
